@@ -128,6 +128,77 @@ impl Acc {
     }
 }
 
+impl Acc {
+    /// Serialises what a child process observed so that the parent can merge it
+    /// (distinct cases travel as their hashes).
+    pub fn to_json(&self) -> Value {
+        json!({
+            "evals": self.evals,
+            "counts": self.counts,
+            "maxes": self.maxes,
+            "hits": self.hits,
+            "distinct": self.distinct.iter().collect::<Vec<_>>(),
+            "samples": self.samples,
+            "vio_count": self.vio_count,
+            "violations": self.violations.iter().map(|v| json!({"sig": v.sig, "case": v.case, "observed": v.observed, "expected": v.expected})).collect::<Vec<_>>(),
+            "known": self.known.iter().map(|(k, (n, e))| json!({"id": k, "n": n, "example": e})).collect::<Vec<_>>(),
+            "inconclusive": self.inconclusive,
+            "harness_errors": self.harness_errors,
+        })
+    }
+    pub fn from_json(v: &Value) -> Acc {
+        let mut a = Acc::default();
+        a.evals = v["evals"].as_u64().unwrap_or(0);
+        let map = |x: &Value| -> BTreeMap<String, u64> { x.as_object().map(|o| o.iter().map(|(k, v)| (k.clone(), v.as_u64().unwrap_or(0))).collect()).unwrap_or_default() };
+        a.counts = map(&v["counts"]);
+        a.maxes = map(&v["maxes"]);
+        a.hits = map(&v["hits"]);
+        a.distinct = v["distinct"].as_array().map(|x| x.iter().filter_map(|h| h.as_u64()).collect()).unwrap_or_default();
+        a.samples = v["samples"].as_array().cloned().unwrap_or_default();
+        a.vio_count = v["vio_count"].as_u64().unwrap_or(0);
+        for x in v["violations"].as_array().cloned().unwrap_or_default() {
+            let viol = Violation { sig: x["sig"].as_str().unwrap_or("").to_string(), case: x["case"].clone(), observed: x["observed"].as_str().unwrap_or("").to_string(), expected: x["expected"].as_str().unwrap_or("").to_string() };
+            a.vio_sigs.insert(viol.sig.clone());
+            a.violations.push(viol);
+        }
+        for x in v["known"].as_array().cloned().unwrap_or_default() {
+            a.known.insert(x["id"].as_str().unwrap_or("").to_string(), (x["n"].as_u64().unwrap_or(0), x["example"].as_str().unwrap_or("").to_string()));
+        }
+        a.inconclusive = v["inconclusive"].as_u64().unwrap_or(0);
+        a.harness_errors = v["harness_errors"].as_array().map(|x| x.iter().filter_map(|e| e.as_str().map(String::from)).collect()).unwrap_or_default();
+        a
+    }
+}
+
+/// Runs `xtv <subcommand> ...` as a child process and merges the Acc it prints
+/// as its last stdout line ("XTV-ACC {json}"). A child that dies (abort, stack
+/// overflow, signal) becomes a violation attributed to `what`.
+pub fn run_isolated(subcommand: &str, args: &[String], what: &str, acc: &mut Acc) {
+    let exe = match std::env::current_exe() {
+        Ok(e) => e,
+        Err(e) => {
+            acc.harness_errors.push(format!("current_exe: {e}"));
+            return;
+        }
+    };
+    let out = std::process::Command::new(exe).arg(subcommand).args(args).stdin(std::process::Stdio::null()).stderr(std::process::Stdio::piped()).stdout(std::process::Stdio::piped()).output();
+    match out {
+        Err(e) => acc.harness_errors.push(format!("cannot start isolated stage {subcommand}: {e}")),
+        Ok(o) => {
+            let so = String::from_utf8_lossy(&o.stdout);
+            let parsed = so.lines().rev().find_map(|l| l.strip_prefix("XTV-ACC ")).and_then(|j| serde_json::from_str::<Value>(j).ok());
+            match parsed {
+                Some(v) if o.status.success() => acc.merge(Acc::from_json(&v)),
+                _ => {
+                    use std::os::unix::process::ExitStatusExt;
+                    let se = String::from_utf8_lossy(&o.stderr);
+                    acc.violation(Violation { sig: format!("{what}: isolated stage died"), case: json!({"isolated_stage": subcommand, "args": args}), observed: format!("the child process running '{what}' ended with exit {:?} signal {:?}; stderr [{}]", o.status.code(), o.status.signal(), truncate(&se, 400)), expected: "the stage runs to completion (an abort here is a crash of xt's code under the workload)".into() });
+                }
+            }
+        }
+    }
+}
+
 pub struct Ctx {
     pub prop: &'static str,
     pub tier: String,
